@@ -7,6 +7,12 @@ TB = ("Trusted: Coq 8.16.1 kernel (vm_compute, no native_compute; no axioms: eve
       "sync.Pool/bufio; the translator tools/gotrans; extraction (ExtrOcamlBasic only) + ocaml/zmodel.ml; the Go harness and its "
       "blob-decoding co-process; for vectors the pure-Go stand-in engine fakefaiss. ")
 CLAIMED = {
+ "C07": ("Coq: refinement theorems C07_clean / C07_filtered / C07_single_hit (iterator machine = specification for every call sequence, chunk size, flags, exclusion set) ; correspondence: bounded-exhaustive and random Next/Advance sequences, reuse histories and ReplaceActual against the extracted machine",
+         "The theorems cover every postings list, chunk size > 0, flag combination, exclusion set and every sequence of Next/Advance targets (by induction with the `Ready` invariant over the two chunk streams). The extracted machine is run call by call against the real iterator: exhaustively for all P, E over N documents x chunk sizes x legal sequences (quick N=4,L=2 strided; thorough N=6,L=3), on random larger instances, through merges (single-hit encoding), with preallocated objects reused across terms / absent terms / absent fields / segments, and after ReplaceActual.",
+         "ReplaceActual-with-subset and independence from leftovers of reused objects are decided by the correspondence only; the link from 'remaining entries of the chunk' to bytes is the codec lemmas of C01.", "6 C07, Appendix A"),
+ "C08": ("Coq: C08_dictionary_enumeration (reused scratch list model of DictionaryIterator, all dictionaries/automata/ranges) + refutation of the pinned read function; correspondence: AutomatonIterator over built/opened/merged/re-merged segments vs the extracted model run on the dictionary the extracted parser reads from the segment's bytes; Gallina matchers for the automata",
+         "The theorem holds for every mixture of single-hit and general entries, every automaton and range; the correspondence compares (term, count) sequences, Contains and Cardinality for match-all / never / exact / prefix / Levenshtein / random regular expressions x ranges x provenance, and cross-checks counts against the specification's postings.",
+         "vellum's FST.Search abstracted as an ordered filter; Levenshtein/regexp on ASCII terms.", "6 C08"),
  "C04": ("Coq: footer + CRC-32 theorems (Footer.v), footer field order re-extracted from persistFooter/loadConfig and tied; correspondence: Persist bytes = WriteTo bytes, footer decoded and CRC recomputed by the Gallina CRC-32, opened dump = in-memory dump = extracted spec, incl. a >2 MiB segment",
          "footer_roundtrip and crc_update_app hold for all byte images; tie_footer_order re-proves on every run that the Go writer and reader use the frozen field order; every generated segment (many per process, so pooled builder state is reused) is persisted, its footer decoded by the model and its CRC recomputed by an independent implementation, and the re-opened segment's complete query surface compared with the in-memory one and the spec.",
          "mmap/open are OS behaviour; vectors under C14.", "6 C04"),
